@@ -7,6 +7,7 @@ import (
 	"go/constant"
 	"go/token"
 	"go/types"
+	"os"
 	"sort"
 	"strings"
 
@@ -20,7 +21,7 @@ func init() {
 		Explain: "Decides: retryOnError calls the operation before any return, whatever Admin.Retry.Max is (C19.attempt); the retried operation carries no state from one attempt to the next — every variable it both writes and reads is its own or re-initialised first — so a later clean acknowledgement is not overruled by an earlier attempt's error (C19.attempt-local); each controller-bound operation sends its request to the broker returned by Controller() inside the retried closure, refreshes the controller on NOT_CONTROLLER and returns an error the retry predicate recognises (C19.controller); success (nil) is returned only when the item is present and its error code is ErrNoError (C19.verdict); leader/coordinator-bound operations take their broker from Leader()/Coordinator(), per item when they span several (C19.routing); " +
 			"every constant request version stored anywhere in the library is guarded by a configured-version test that implies the version the request type itself requires, so Broker.send cannot refuse it with ErrUnsupportedVersion (C19.version); the fan-out operations pair every WaitGroup.Add with a Done (C12.pairing, shared). " +
 			"NOT covered: number of controller moves versus Retry.Max at run time, the brokers' verdicts themselves.",
-		Rules: []func(*Ctx){c19Attempt, c19AttemptLocal, c19PerRequestFresh, c19Controller, c19Verdict, c19KErrorOrdered, c19Routing, c19Version, c12Pairing, c15Brokers},
+		Rules: []func(*Ctx){c19Attempt, c19AttemptLocal, c19PerRequestFresh, c19Controller, c19Verdict, c19KErrorOrdered, c19Routing, c19Version, c19VersionFloor, c12Pairing, c15Brokers},
 	})
 }
 
@@ -906,6 +907,9 @@ func versionRule(c *Ctx, floor int, include func(fn string) bool) {
 				}
 			}
 		}
+		if os.Getenv("SACHECK_DEBUG_VERS") != "" && needV != best {
+			fmt.Fprintf(os.Stderr, "VERS %s %s=%d need=%s guard=%s\n", p.Name(s.fn), s.typ, s.k, need, bestName)
+		}
 		c.Check(needV.leq(best), rule, s.fn, fmt.Sprintf("version:%s=%d", s.typ, s.k), s.st,
 			fmt.Sprintf("%s v%d requires %s; guaranteed configured version ≥ %s", s.typ, s.k, need, bestName),
 			fmt.Sprintf("%s.Version = %d requires %s but the store is only guarded by configured version ≥ %s: with a configured version in between Broker.send refuses every such request with ErrUnsupportedVersion", s.typ, s.k, need, bestName), nil)
@@ -958,4 +962,53 @@ func aggregateVerdict(p *Program, fn *ssa.Function, okVal ssa.Value, kerrIs VM, 
 		return s, true
 	}
 	return "", true
+}
+
+// C19.version-floor: request versions the property cannot do without are selected as soon as the configured version
+// allows them (the guard is exactly what requiredVersion() names, not something later).
+func c19VersionFloor(c *Ctx) {
+	p := c.P
+	rule := "C19.version-floor"
+	c.Doc(rule, "clusterAdmin.ListConsumerGroupOffsets selects OffsetFetchRequest v2 — the first version that can ask for all partitions of a group (nil partition list) and that carries a group-level error code — under exactly conf.Version.IsAtLeast(requiredVersion(2)): with a later gate, configurations in between send v1, where a nil partition list means 'no partitions' and a coordinator error has no field to travel in, so the operation reports success with nothing")
+	c.Floor(rule, 1)
+	vt := p.versionTable()
+	for _, t := range []struct {
+		fn, typ string
+		k       int64
+	}{{"clusterAdmin.ListConsumerGroupOffsets", "OffsetFetchRequest", 2}} {
+		fn := c.NeedFn(rule, t.fn)
+		if fn == nil {
+			continue
+		}
+		cases, def, ok := p.requiredVersionTable(t.typ)
+		if !ok {
+			c.Unresolved(rule, t.typ+".requiredVersion")
+			continue
+		}
+		need, has := cases[t.k]
+		if !has {
+			need = def
+		}
+		var st *ssa.Store
+		Info(fn).Each(func(it Item) {
+			s, ok := it.In.(*ssa.Store)
+			if !ok {
+				return
+			}
+			ch := fieldChain(s.Addr)
+			if len(ch) == 0 || ch[len(ch)-1].name != "Version" || ch[len(ch)-1].owner != t.typ {
+				return
+			}
+			if k, ok := dConstInt(s.Val); ok && k == t.k {
+				st = s
+			}
+		})
+		if st == nil {
+			c.Fail(rule, fn, fmt.Sprintf("floor:%s=%d", t.typ, t.k), nil, fmt.Sprintf("%s never selects %s v%d", t.fn, t.typ, t.k), nil)
+			continue
+		}
+		got := vt.atLeast(WholeFn(rootOf(fn)), st.Block(), nil)
+		c.Check(got == need, rule, fn, fmt.Sprintf("floor:%s=%d", t.typ, t.k), st, fmt.Sprintf("%s v%d selected from %s on", t.typ, t.k, need),
+			fmt.Sprintf("%s v%d is selected only for configured versions ≥ %s although it is available from %s on: in between the older request is sent, which cannot ask for all partitions of the group nor carry the coordinator's error — the operation reports success with no offsets", t.typ, t.k, orNone(got), need), nil)
+	}
 }
